@@ -11,12 +11,12 @@ use std::path::{Path, PathBuf};
 use std::process::{Command, ExitStatus, Stdio};
 use std::time::{Duration, Instant};
 
-pub const SUPERVISED: &[&str] = &["C01", "C04", "C05", "C06", "C08", "C09", "C10", "C12", "C13", "C15", "C16", "C19"];
+pub const SUPERVISED: &[&str] = &["C01", "C02", "C03", "C04", "C05", "C06", "C07", "C08", "C09", "C10", "C11", "C12", "C13", "C15", "C16", "C19"];
 
 /// Parse-level value properties that are supervised only to vary the BUILD PROFILE (a value that differs, or an
 /// assertion that fires, only with debug assertions / overflow checks on): their dbgchk worker runs a quarter of
 /// the thorough volume (the release worker runs all of it).
-pub const VALUE_PROFILE_IDS: &[&str] = &["C01", "C05", "C06", "C09", "C10"];
+pub const VALUE_PROFILE_IDS: &[&str] = &["C01", "C02", "C03", "C05", "C06", "C07", "C09", "C10", "C11"];
 
 /// (target, build mode) pairs: `asan` = AddressSanitizer + debug assertions,
 /// `asanrel` = AddressSanitizer without debug assertions (as shipped).
@@ -736,6 +736,7 @@ pub fn run(ctx: &Ctx) -> i32 {
         let mut envs: Vec<(&str, String)> = Vec::new();
         if name == "dbgchk" && ctx.tier.name() == "thorough" && VALUE_PROFILE_IDS.contains(&ctx.id.as_str()) {
             envs.push(("VERIF_SCALE", format!("{}", ctx.scale * 0.25)));
+            envs.push(("MLV_SWEEP_TIER", "quick".to_string()));
         }
         let r = run_child(&bin, &args, &envs, budget);
         if r.timed_out {
